@@ -408,8 +408,19 @@ func TestC15(t *testing.T) {
 			c.Table.DB = gen.Name(rt, "db", 255)
 			c.Table.Name = gen.Name(rt, "tbl", 255)
 			c.Flags = uint16(rapid.IntRange(0, 65535).Draw(rt, "flags"))
+			longTLV := false
 			for i := rapid.IntRange(0, 3).Draw(rt, "ntlv"); i > 0; i-- {
-				c.Optional = append(c.Optional, refenc.OptionalTLV(byte(rapid.IntRange(1, 12).Draw(rt, "tlv_type")), rapid.SliceOfN(rapid.Byte(), 0, 300).Draw(rt, "tlv_val")))
+				val := rapid.SliceOfN(rapid.Byte(), 0, 300).Draw(rt, "tlv_val")
+				if rapid.Bool().Draw(rt, "tlv_len_edge") {
+					// field lengths are packed integers: one byte up to 250, then 0xfc + 2 bytes, then 0xfd + 3 bytes
+					// (column names of a wide table under binlog_row_metadata=FULL are longer than 250 bytes)
+					n := rapid.SampledFrom([]int{0, 1, 250, 251, 252, 1000, 65535, 65536, 70000}).Draw(rt, "tlv_len")
+					val = refenc.Blob{K: 3, S: rapid.Uint32().Draw(rt, "tlv_seed"), N: n}.Bytes()
+				}
+				c.Optional = append(c.Optional, refenc.OptionalTLV(byte(rapid.IntRange(1, 12).Draw(rt, "tlv_type")), val))
+				if len(val) >= 251 {
+					longTLV = true
+				}
 			}
 			metaLen := 0
 			for _, col := range c.Table.Cols {
@@ -424,6 +435,9 @@ func TestC15(t *testing.T) {
 			}
 			if len(c.Optional) > 0 {
 				cls = append(cls, "tablemap/optional-metadata")
+			}
+			if longTLV {
+				cls = append(cls, "tablemap/optional-metadata-field>=251B")
 			}
 			rec.Case(true, c, cls...)
 			if len(c.Table.Cols) < 12 {
